@@ -200,7 +200,7 @@ def specs(tier: str) -> list[Spec]:
                        (lambda: wf_waiters(n, w, timeout, req, two, implicit, pre)), scripts=script(events), resume=resume,
                        max_dev=max_dev))
 
-    d = 3 if q else 5
+    d = 3 if q else 7
     add("match_dup", 1, 1, None, True, [("Resp", "0"), ("Resp", "0")], max_dev=None)
     add("match_dup_noreq", 1, 1, None, False, [("Resp", "x"), ("Resp", "y")], max_dev=None)
     add("match_dup_w2", 1, 2, None, True, [("Resp", "0"), ("Resp", "0")], max_dev=None)
@@ -229,6 +229,12 @@ def specs(tier: str) -> list[Spec]:
     if not q:
         add("three_inputs", 3, 2, None, True, [("Resp", "0"), ("Resp", "1"), ("Resp", "2"), ("Resp", "1")], max_dev=4)
         add("resume_dup", 1, 1, None, True, [("Resp", "0"), ("Resp", "0")], resume=True, max_dev=5)
+        add("resume_two_waits", 1, 1, None, True, [("Resp", "0"), ("Resp", "0b")], resume=True, two=True, max_dev=6)
+        add("resume_pre_gate_two_waits", 1, 1, None, True, [("Resp", "0"), ("Resp", "0b")], resume=True, two=True, pre=True, max_dev=5)
+        add("resume_three_inputs", 3, 2, None, True, [("Resp", "2"), ("Resp", "0"), ("Resp", "1")], resume=True, max_dev=4)
+        add("resume_timeout_two_inputs", 2, 2, 5.0, True, [("Resp", "1")], resume=True, max_dev=5)
+        add("pre_gate_dup", 1, 1, None, True, [("Resp", "0"), ("Resp", "0")], pre=True, max_dev=None)
+        add("pre_gate_two_inputs_w1", 2, 1, None, True, [("Resp", "1"), ("Resp", "0"), ("Resp", "1")], pre=True, max_dev=5)
     return sp
 
 
